@@ -21,7 +21,12 @@ type detGen struct {
 	r     *verifsim.Run
 	c     *aCfg
 	hist  [][][]uint16 // accepted frames since start-up / last clear
-	style int          // 0 boundary-focused, 1 full range, 2 scene with warm blobs
+	style int          // 0 boundary-focused, 1 full range, 2 scene with warm blobs, 3 large sensor, 4 cold scene with a visiting warm blob
+	// style 4
+	blobOn       bool
+	blobX, blobY int
+	blobN        int
+	coldV, blobV uint16
 }
 
 func clampPix(v int) uint16 {
@@ -77,6 +82,17 @@ func (g *detGen) first() [][]uint16 {
 		// large-sensor stratum: a uniform scene (no per-pixel draws) at a level drawn over the whole 16-bit range
 		return zz.NewPix(c.W, c.H, clampPix(g.r.OneOf(g.r.Range(1, 65535), g.r.Range(50000, 65535), g.r.Range(12000, 35000))))
 	}
+	if g.style == 4 {
+		// everything at or below the threshold; a warm blob visits one fixed place and leaves again for
+		// stretches longer than the compare gap
+		T := int(c.Motion.TempThresh)
+		g.coldV = clampPix(T - g.r.OneOf(0, 1, g.r.Range(0, 300)))
+		g.blobV = clampPix(T + int(c.Motion.DeltaThresh) + g.r.Range(1, 400))
+		g.blobN = c.Motion.CountThresh + g.r.Draw(3)
+		g.blobX, g.blobY = c.Edge+g.r.Draw(max2i(c.W-2*c.Edge, 1)), c.Edge+g.r.Draw(max2i(c.H-2*c.Edge, 1))
+		g.blobOn = false
+		return zz.NewPix(c.W, c.H, g.coldV)
+	}
 	p := zz.NewPix(c.W, c.H, 0)
 	base := g.aroundT()
 	for y := range p {
@@ -103,6 +119,26 @@ func (g *detGen) next() [][]uint16 {
 	if len(g.hist) == 0 {
 		p := g.first()
 		g.hist = append(g.hist, p)
+		return p
+	}
+	if g.style == 4 {
+		if g.r.Chance(1, 5) {
+			g.blobOn = !g.blobOn
+		}
+		p := zz.NewPix(c.W, c.H, g.coldV)
+		if g.blobOn {
+			n := 0
+			for y := g.blobY; y < c.H-c.Edge && n < g.blobN; y++ {
+				for x := g.blobX; x < c.W-c.Edge && n < g.blobN; x++ {
+					p[y][x] = g.blobV
+					n++
+				}
+			}
+		}
+		g.hist = append(g.hist, p)
+		if len(g.hist) > 8 {
+			g.hist = g.hist[len(g.hist)-8:]
+		}
 		return p
 	}
 	prev := g.hist[len(g.hist)-1]
@@ -231,6 +267,9 @@ func genDetScenario(r *verifsim.Run, focus string) *aScenario {
 		}
 	}
 	g := &detGen{r: r, c: c, style: r.Pick(5, 1, 0)}
+	if (focus == "C07" || focus == "C08") && r.Chance(1, 8) {
+		g.style = 4
+	}
 	n := r.Range(10, 120)
 	if (focus == "C07" || focus == "C09") && r.Chance(1, 4) {
 		// a recording window with an edge inside the run: what the detector sees and keeps does not
